@@ -64,7 +64,7 @@ func TestKnown_C12_embedded_multipart(t *testing.T) {
 
 // TestKnown_C12_group_members: inside a group, a member that follows ", " (comma + white space) or that starts with a
 // quoted string is not parsed; it and every later address of the header are dropped without an error.
-func TestKnown_C12_group_members(t *testing.T) {
+func TestObserved_C12_group_members(t *testing.T) {
 	onlyShard0(t)
 
 	var broken []string
@@ -86,7 +86,11 @@ func TestKnown_C12_group_members(t *testing.T) {
 		}
 	}
 
-	knownOutcome(t, kfGroupMembers, len(broken) > 0, strings.Join(broken, "; "))
+	// ENVELOPE content is outside the statement of C12 (see envelopeContentNotJudged): observed, not judged.
+	if len(broken) > 0 {
+		t.Logf("not judged: %s", strings.Join(broken, "; "))
+		ev.Class("observed:group-members-dropped(not judged)", 1)
+	}
 }
 
 // TestKnown_C12_delimiter_padding: RFC 2046 5.1.1 lets transports add white space behind a delimiter line and obliges
